@@ -25,6 +25,21 @@ CLAIMED = {
         "Trusted: z3 QF_BV, the RXA regex encoding (differentially validated against `re`), the SXM/DSE interpreters (validated by replay), the lexical DFA in fv/oracles.py.",
         "DESIGN.md §5 C02",
     ),
+    "C05": (
+        "symbolic execution (path exploration with z3 feasibility/assertion queries) of the real prune/_set_display methods on stand-in entities",
+        "For every combination of display subset, hide_undoc, proc_internals, child permission and documented flag (all symbolic) the real "
+        "prune family keeps exactly the selected children, sets `visible` and recurses exactly on them; _set_display follows the documented "
+        "inheritance/override/none rules for every metadata word list up to 2 words.",
+        "Trusted: z3, the DSE engine (every model replayed natively), stand-ins built with object.__new__ on the real classes.",
+        "DESIGN.md §5 C05",
+    ),
+    "C10": (
+        "symbolic execution of the real NameSelector.get_name/get_dir on entities with symbolic names (bounded strings / finite operator set), z3 QF_BV",
+        "For every pair/triple of names up to the bound (identifiers in any letter case, every operator/assignment/defined-io generic name, "
+        "unnamed) distinct entities of one output directory obtain stems that differ even ignoring case, stems are stable and free of path separators.",
+        "Trusted: z3, DSE engine, the association-list dict stand-in replacing NameSelector._counts.",
+        "DESIGN.md §5 C10",
+    ),
     "C09": (
         "SMT (z3 linear integer arithmetic) implication between template link conditions (Jinja AST) and page-creation conditions (Python AST)",
         "For every statically known internal URL in the real templates the enclosing template conditions imply the page-creation "
